@@ -155,6 +155,49 @@ theorem created_header_exact (g : GStore) (f : List Char) (a : Bool) (rs : List 
     subst h
     simp [GStore.hdrOf, GStore.refsOf, hr, hh, getL_dictSet]
 
+/-- **New files stay listed, over histories.**  At any point of any history (the state `g` is arbitrary), when a creator makes a new
+    archive file (`create_object_from_dict("Index/<loc>", …)`, no file name containing the pattern) and lists it
+    (`add_component_metadata(id, parent, "<loc>")`), the metadata has a component for the object whose locator names exactly the
+    file that now holds it — and whatever operations follow (`post`), a component with that identifier and that locator is still
+    listed: no operation of the library removes or renames a component entry. -/
+theorem new_files_listed_history (g : GStore) (loc parent : List Char) (rs : List Nat) (id : Nat) (post : List GOp)
+    (hnew : g.files.filter (fun f => isInfix ("Index/".toList ++ loc) f.1) = [])
+    (hc : (createG g ("Index/".toList ++ loc) false rs).2 = .ok id)
+    (hm : (addComponentMetadata (createG g ("Index/".toList ++ loc) false rs).1.toStore id parent loc).2 = .ok ()) :
+    ∃ c ∈ (runG g [.create ("Index/".toList ++ loc) false rs, .addMeta id parent loc]).components,
+      c.identifier = id ∧
+      dictGet? (runG g [.create ("Index/".toList ++ loc) false rs, .addMeta id parent loc]).files
+        ("Index/".toList ++ c.locator ++ ".iwa".toList) = some (some [id]) ∧
+      dictGet? (runG g [.create ("Index/".toList ++ loc) false rs, .addMeta id parent loc]).fileOf id =
+        some ("Index/".toList ++ c.locator ++ ".iwa".toList) ∧
+      ∃ c' ∈ (runG g ([.create ("Index/".toList ++ loc) false rs, .addMeta id parent loc] ++ post)).components,
+        c'.identifier = id ∧ c'.locator = c.locator := by
+  obtain ⟨e1, e2⟩ := createG_toStore g ("Index/".toList ++ loc) false rs
+  have hlisted : createListed g.toStore loc parent =
+      ((addComponentMetadata (createG g ("Index/".toList ++ loc) false rs).1.toStore id parent loc).1, .ok id) := by
+    unfold createListed
+    rw [e2] at hc
+    rw [e1] at hm ⊢
+    have h1 : createObject g.toStore ("Index/".toList ++ loc) false =
+        ((createObject g.toStore ("Index/".toList ++ loc) false).1, .ok id) := Prod.ext rfl hc
+    rw [h1]
+    simp only
+    have h2 : addComponentMetadata (createObject g.toStore ("Index/".toList ++ loc) false).1 id parent loc =
+        ((addComponentMetadata (createObject g.toStore ("Index/".toList ++ loc) false).1 id parent loc).1, .ok ()) := Prod.ext rfl hm
+    rw [h2]
+  obtain ⟨c, hcm, hid, hf, hfo⟩ := (createListed_new_file g.toStore _ loc parent id hnew hlisted).2
+  have hrun : (runG g [.create ("Index/".toList ++ loc) false rs, .addMeta id parent loc]).toStore =
+      (addComponentMetadata (createG g ("Index/".toList ++ loc) false rs).1.toStore id parent loc).1 := rfl
+  refine ⟨c, ?_, hid, ?_, ?_, ?_⟩
+  · show c ∈ (runG g _).toStore.components; rw [hrun]; exact hcm
+  · show dictGet? (runG g _).toStore.files _ = _; rw [hrun]; exact hf
+  · show dictGet? (runG g _).toStore.fileOf _ = _; rw [hrun]; exact hfo
+  · have hc2 : c ∈ (runG g [.create ("Index/".toList ++ loc) false rs, .addMeta id parent loc]).components := by
+      show c ∈ (runG g _).toStore.components; rw [hrun]; exact hcm
+    obtain ⟨c', h1, h2, h3, _⟩ := components_persist _ post c hc2
+    refine ⟨c', ?_, h2.trans hid, h3⟩
+    simpa [runG, List.foldl_append] using h1
+
 /-! non-vacuity: a history that satisfies `TargetsExist` (a tile is created, listed, referenced from the table, the
     header lists are recomputed) — and the state it reaches -/
 example :
@@ -172,7 +215,8 @@ example :
     TargetsExist g0 ops ∧ wellFiled g0 = true ∧ wellFiled g = true ∧ g.ids = [1, 2, 7, 1999999, 2000001, 2000002] ∧
     g.refs = [(1, [7, 55]), (7, [2000001]), (2000001, []), (2000002, [7, 2000002])] ∧
     g.hdr = [(1, [7, 55]), (7, [2000001]), (2000001, []), (2000002, [7, 2000002])] ∧
-    g.writtenOf 2000002 = [7, 2000002] ∧ 55 ∉ g.ids ∧ 55 ∉ g0.ids := by
+    g.writtenOf 2000002 = [7, 2000002] ∧ 55 ∉ g.ids ∧ 55 ∉ g0.ids ∧
+    g.components.map (fun c => (c.identifier, String.ofList c.locator)) = [(1999999, "CalculationEngine"), (2000001, "Tables/Tile-2000001")] := by
   decide +kernel
 
 /-! **known finding `null-reference-identifier-zero`**: `add_table` creates the table model with the references of the
